@@ -9,7 +9,7 @@ export GOFLAGS=-mod=mod GOPROXY=off GOSUMDB=off GOTOOLCHAIN=local
 D=$(mktemp -d /tmp/mrepo.XXXXXX)
 VERIF_HOME=$(cd "$(dirname "$(readlink -f "$0")")/.." && pwd)
 TAG=$(python3 -c 'import sys,zlib; print("%08x" % (zlib.crc32(sys.argv[1].encode()) & 0xFFFFFFFF))' "$D")
-trap 'rm -rf "$D" "$D".*.log; rm -f "$VERIF_HOME"/.build/bin/*-$TAG.test "$VERIF_HOME"/.build/alt-$TAG.*; rm -rf "$VERIF_HOME"/.build/out-$TAG' EXIT
+trap 'rm -rf "$D" "$D".*.log; rm -f "$VERIF_HOME"/.build/bin/*-$TAG.test "$VERIF_HOME"/.build/alt-$TAG.*; rm -rf "$VERIF_HOME"/.build/out-$TAG "$VERIF_HOME"/.build/evidence-scratch/$TAG' EXIT
 if [ -n "$SEED_BASE" ]; then git -C /repo archive "$SEED_BASE" | tar -x -C "$D"; else rsync -a --exclude .git /repo/ "$D"/; fi
 demo_pkg() { # package dir of the demo, from its package clause / meta
   local f="$DIR/demo_test.go"; local pk=$(grep -m1 '^package ' "$f" | awk '{print $2}')
@@ -36,4 +36,5 @@ for c in $CHECKS; do
   OUT=$(VERIF_REPO="$D" ./check $c quick 2>&1); rc=$?
   echo "check $c: exit=$rc $(echo "$OUT" | grep -m1 -A1 '^VIOLATION' | tail -1 | cut -c1-260)"
   [ $rc = 2 ] && echo "$OUT" | tail -5
+  [ $rc != 0 ] && echo "$OUT" > "$DIR/check_$c.out"
 done
